@@ -1,6 +1,7 @@
 package main
 
 import (
+	"strings"
 	"encoding/hex"
 	"fmt"
 
@@ -22,6 +23,16 @@ func init() {
 			return "err:" + errClass(err)
 		}
 		return fmt.Sprintf("ok:ntot=%d:np=%d:%s", ntot, np, hex.EncodeToString(bs))
+	}
+	// batched: bases start, start+step, ... (count values), same extension
+	ops["durationRange"] = func(c *Case) string {
+		start, step, count, ext := c.num("start"), c.num("step"), int(c.num("count")), c.num("ext")
+		parts := make([]string, count)
+		for i := 0; i < count; i++ {
+			cr := astits.ClockReference{Base: start + int64(i)*step, Extension: ext}
+			parts[i] = fmt.Sprintf("%d", int64(cr.Duration()))
+		}
+		return strings.Join(parts, ",")
 	}
 	ops["duration"] = func(c *Case) string {
 		cr := astits.ClockReference{Base: c.num("base"), Extension: c.num("ext")}
